@@ -45,6 +45,16 @@ theorem merge_visits_sorted :
   decide
 #print axioms merge_visits_sorted
 
+/-- the same for the per-project second pass of project mode (luahelper.json ProjectFiles; repaired): the helper collects
+    and sorts the project's files, and the merge of the _G globals and the merge of the members other files add to them
+    both range over its result — so `sorted_visit_function_of_workspace` speaks about them too -/
+theorem project_visits_sorted :
+    Gen.projectVisits =
+      ["range second.AllFiles { fileList = append(fileList, strFile) }", "sort.Strings(fileList)",
+       "range sortedProjectFiles(second)", "range sortedProjectFiles(second)"] := by
+  decide
+#print axioms project_visits_sorted
+
 theorem run_append (a b : List Cand) : run (a ++ b) = b.foldl addCand (run a) := by
   unfold run; rw [List.foldl_append]
 
